@@ -275,7 +275,7 @@ thread_local! {
     static STACKS: Vec<StackSubject> = stack_subjects();
 }
 
-fn make(name: &str) -> Box<dyn StackT> {
+pub fn make(name: &str) -> Box<dyn StackT> {
     STACKS.with(|v| match v.iter().find(|s| s.name == name) {
         Some(s) => (s.make)(),
         None => {
